@@ -25,6 +25,10 @@ import (
 //	      rand.New(rand.NewSource(Seeds[0])) to the distribution's own CDF
 //	op 8  the same N seeded draws, sorted, handed over: the Kolmogorov-Smirnov distance to the exact cdf is
 //	      computed by the Coq comparator
+//	op 10 Kolmogorov-Smirnov distance of N seeded draws of stats.Rand of a relational-kind distribution (every
+//	      built-in, the harness distributions) to that distribution's OWN cdf, computed by the comparator from
+//	      the sorted draws and the cdf values the harness reports next to them — whatever generator
+//	      stats.Rand returns (a distribution's own Rand method or the generic one)
 //	op 7  stats.Rand of a relational-kind distribution (harness/c07_dists.go) with a scripted rand.Source
 //
 // ops 0 and 4 with Step != 0: the SAME piecewise cdf (pure jumps on the lattice X0 + i*Step) behind a
@@ -53,6 +57,7 @@ type c07Case struct {
 	T     []int     `json:"t,omitempty"`
 	Xs    []F64     `json:"xs,omitempty"`
 	Step  F64       `json:"step,omitempty"`
+	Draws int       `json:"draws,omitempty"`
 }
 
 // c07PW implements stats.DistCommon (CDF, Bounds) and nothing else: no InvCDF, no Rand method.
@@ -120,8 +125,6 @@ func (d c07DiscPW) PMF(x float64) float64 {
 	return 0
 }
 
-var _ stats.DiscreteDist = c07DiscPW{}
-
 // the distribution of ops 0, 4: the plain DistCommon, or the DiscreteDist when Step != 0
 func c07MakeDist(c *c07Case) (stats.DistCommon, *c07PW, error) {
 	d, err := c07MakePW(c)
@@ -186,6 +189,26 @@ func (l *Line) c07PW(d *c07PW) {
 	l.F(d.bl).F(d.bh)
 }
 
+// stats.InvCDF(dist) — the constructor itself under recover: if it panics every call of the result does
+// (status 2 in the line), so that a library change shows up as a verdict, not as a harness failure
+func c07SafeInv(dist stats.DistCommon) func(float64) float64 {
+	var f func(float64) float64
+	if pan, _ := catch(func() { f = stats.InvCDF(dist) }); pan || f == nil {
+		return func(float64) float64 { panic("stats.InvCDF panicked") }
+	}
+	return f
+}
+
+// a cdf used by a GENERATOR to place levels: NaN instead of a panic
+func c07SafeCDF(f func(float64) float64) func(float64) float64 {
+	return func(x float64) (y float64) {
+		if pan, _ := catch(func() { y = f(x) }); pan {
+			return math.NaN()
+		}
+		return y
+	}
+}
+
 // one call of the closure under recover: status 0 returned, 2 panicked
 func c07Call(f func(float64) float64, y float64) (st int, x float64) {
 	pan, _ := catch(func() { x = f(y) })
@@ -228,7 +251,19 @@ func c07Run(raw []byte) (*Line, error) {
 		return nil, fmt.Errorf("too many ys")
 	}
 	l := &Line{}
-	l.I(7).I(c.Op)
+	l.I(7)
+	// op 3 (dispatch of NormalDist / DeltaDist) goes through the relational machinery (kinds 5, 6): whether a
+	// distribution HAS an InvCDF / Rand method is observed at run time, never assumed at compile time — a
+	// library change (a method added or removed) must change verdicts, not break the harness
+	if c.Op == 3 {
+		if c.Kind != 0 && c.Kind != 1 {
+			return nil, fmt.Errorf("bad kind")
+		}
+		c.Op, c.Kind = 6, 5+c.Kind
+	}
+	if c.Op != 7 {
+		l.I(c.Op) // op 7 writes its own token: 7 (generic generator) or 9 (the distribution has its own Rand)
+	}
 	switch c.Op {
 	case 0:
 		dist, d, err := c07MakeDist(&c)
@@ -236,69 +271,20 @@ func c07Run(raw []byte) (*Line, error) {
 			return nil, err
 		}
 		l.c07PW(d)
-		c07Items(l, stats.InvCDF(dist), c.Ys)
+		c07Items(l, c07SafeInv(dist), c.Ys)
 	case 1:
 		p := float64(c.P)
 		if c.N < 0 || c.N > 200 || !(p >= 0 && p <= 1) {
 			return nil, fmt.Errorf("bad binomial parameters")
 		}
 		l.I(c.N).F(p)
-		c07Items(l, stats.InvCDF(stats.BinomialDist{N: c.N, P: p}), c.Ys)
+		c07Items(l, c07SafeInv(stats.BinomialDist{N: c.N, P: p}), c.Ys)
 	case 2:
 		if c.N < 2 || c.N > 200 || c.K < 0 || c.K > c.N || c.D < 0 || c.D > c.N {
 			return nil, fmt.Errorf("bad hypergeometric parameters")
 		}
 		l.I(c.N).I(c.K).I(c.D)
-		c07Items(l, stats.InvCDF(stats.HypergeometicDist{N: c.N, K: c.K, Draws: c.D}), c.Ys)
-	case 3:
-		a, b := float64(c.A), float64(c.B)
-		if math.IsNaN(a) || math.IsInf(a, 0) || math.IsNaN(b) || math.IsInf(b, 0) || len(c.Seeds) > 1024 {
-			return nil, fmt.Errorf("bad parameters")
-		}
-		var dist stats.DistCommon
-		var meth func(float64) float64
-		var mrand func(*rand.Rand) float64
-		switch c.Kind {
-		case 0:
-			if !(b > 0) {
-				return nil, fmt.Errorf("bad sigma")
-			}
-			nd := stats.NormalDist{Mu: a, Sigma: b}
-			dist, meth, mrand = nd, nd.InvCDF, nd.Rand
-		case 1:
-			dd := stats.DeltaDist{T: a}
-			dist, meth = dd, dd.InvCDF
-			// DeltaDist has no Rand method: the generic generator is its InvCDF at the first non-zero draw
-			mrand = func(r *rand.Rand) float64 {
-				y := 0.0
-				for y == 0 {
-					y = r.Float64()
-				}
-				return dd.InvCDF(y)
-			}
-		default:
-			return nil, fmt.Errorf("bad kind")
-		}
-		l.I(c.Kind).F(a).F(b)
-		gen := stats.InvCDF(dist)
-		l.I(len(c.Ys))
-		for _, y := range c.Ys {
-			s1, g := c07Call(gen, float64(y))
-			s2, m := c07Call(meth, float64(y))
-			st := s1
-			if s2 != 0 {
-				st = s2
-			}
-			l.F(float64(y)).I(st).F(g).F(m)
-		}
-		grand := stats.Rand(dist)
-		l.I(3 * len(c.Seeds))
-		for _, s := range c.Seeds {
-			r1, r2 := rand.New(rand.NewSource(s)), rand.New(rand.NewSource(s))
-			for j := 0; j < 3; j++ {
-				l.F(grand(r1)).F(mrand(r2))
-			}
-		}
+		c07Items(l, c07SafeInv(stats.HypergeometicDist{N: c.N, K: c.K, Draws: c.D}), c.Ys)
 	case 4:
 		dist, d, err := c07MakeDist(&c)
 		if err != nil {
@@ -335,7 +321,7 @@ func c07Run(raw []byte) (*Line, error) {
 		if src.pos >= 1 {
 			y = float64(c.Src[src.pos-1]) / (1 << 63)
 		}
-		ist, inv := c07Call(stats.InvCDF(dist), y) // a separate closure, a separate call
+		ist, inv := c07Call(c07SafeInv(dist), y) // a separate closure, a separate call
 		l.I(st).I(src.pos).F(y).F(draw).I(ist).F(inv)
 	case 6:
 		if err := c07RunRel(l, &c); err != nil {
@@ -343,6 +329,10 @@ func c07Run(raw []byte) (*Line, error) {
 		}
 	case 7:
 		if err := c07RunRandRel(l, &c); err != nil {
+			return nil, err
+		}
+	case 10:
+		if err := c07RunKSRel(l, &c); err != nil {
 			return nil, err
 		}
 	case 8:
@@ -442,7 +432,7 @@ func c07GenPW(rng *rand.Rand) (knots []c07Knot, step float64) {
 	}
 	// step scale 2^e: narrow and wide; mostly comparable to |c|.  At c = 0 any scale down to 2^-1000
 	e := rng.Intn(37) - 20 // -20..16
-	if c == 0 && rng.Intn(3) == 0 {
+	if c == 0 && rng.Intn(5) == 0 {
 		e = -20 - rng.Intn(980)
 	}
 	if c != 0 && rng.Intn(10) < 6 {
@@ -622,6 +612,7 @@ func c07GenYs(rng *rand.Rand, knots []c07Knot) []F64 {
 }
 
 func c07DiscYs(rng *rand.Rand, cdf func(float64) float64, lo, hi int) []F64 {
+	cdf = c07SafeCDF(cdf)
 	ys := []float64{0, 1}
 	exact := rng.Intn(4) == 0
 	for i := 0; i < 8; i++ {
@@ -696,6 +687,7 @@ func c07Gen(tier string, rng *rand.Rand, emit func(interface{})) {
 	// every N: Binomial N = 1..80 with P = 1/2 and 1/4, Hypergeometric N = 2..60 (K = N/2, D = N/3 and
 	// K = N-1, D = 2); levels 0, 1, 1/2 and a cumulative level -+ 1e-6 at the mode, the ends and N/4
 	discSweepYs := func(cdf func(float64) float64, lo, hi int) []F64 {
+		cdf = c07SafeCDF(cdf)
 		ys := []float64{0, 1, 0.5}
 		for _, k := range []int{lo, (lo + hi) / 2, lo + (hi-lo)/4, hi - 1} {
 			if k >= lo && k < hi {
@@ -754,7 +746,7 @@ func c07Gen(tier string, rng *rand.Rand, emit func(interface{})) {
 	}
 	c07GenExtra(tier, rng, emit)
 	// (a) random piecewise distributions
-	for i := 0; i < 1500*mul; i++ {
+	for i := 0; i < 1000*mul; i++ {
 		knots, step := c07GenPW(rng)
 		bl, bh := c07GenBounds(rng, knots, step)
 		emit(c07Case{Op: 0, Knots: knots, Bl: F64(bl), Bh: F64(bh), Ys: c07GenYs(rng, knots)})
@@ -879,7 +871,7 @@ func c07Gen(tier string, rng *rand.Rand, emit func(interface{})) {
 				}
 			}
 		}); pan {
-			continue
+			levels = nil // the case is emitted all the same: the panic is then an observation of the run
 		}
 		emit(c07Case{Op: 6, Kind: 1, N: n1, K: n2, T: t, Ys: relYs(levels)})
 	}
